@@ -744,7 +744,9 @@ func runSlowConnect(t *testing.T, rng *rand.Rand, rec *sim.Rec, tier string, cas
 	pl, _ := w.Net.ListenTCP(net.IPv4(10, 2, 0, 1).To4(), 8000)
 	defer pl.Close() //nolint:errcheck
 	m.CreatePermission(tc, &net.UDPAddr{IP: net.IPv4(10, 2, 0, 1).To4(), Port: 8000})
-	w.Gen.SetDelayKind("conn", 20*time.Second)
+	// (the dial takes 20 s - or 34 s, longer than anybody's patience, and succeeds then)
+	dialFor := pick(rng, []time.Duration{20 * time.Second, 20 * time.Second, 34 * time.Second})
+	w.Gen.SetDelayKind("conn", dialFor)
 	tid := w.NewTID()
 	b := wire.NewBuilder(wire.MethodConnect, wire.ClassRequest, tid)
 	b.AddXorAddr(wire.AttrXORPeerAddress, net.IPv4(10, 2, 0, 1).To4(), 8000)
@@ -771,19 +773,19 @@ func runSlowConnect(t *testing.T, rng *rand.Rand, rec *sim.Rec, tier string, cas
 		rec.Violate("alloc-expiry-late", "slow-connect", "AllocationCount=%d (want %d) one second after a %d s allocation should have ended (a Connect of another client is dialling a slow peer)", n, want, life)
 	}
 	w.Gen.SetDelayKind("conn", 0)
-	w.Sleep(25 * time.Second)
+	w.Sleep(dialFor + 5*time.Second)
 	tc.Collect()
 	if r := tc.TakeResponse(tid); r == nil && !ownerDies {
-		rec.Violate("server-wedged", "slow-connect", "the Connect whose dial took 20 s was never answered")
+		rec.Violate("server-wedged", "slow-connect", "the Connect whose dial took %v was never answered", dialFor)
 	} else {
-		rec.FP("slow-connect/answered/%d/owner-gone=%v", codeOfMsg(r), ownerDies)
+		rec.FP("slow-connect/answered/%d/owner-gone=%v/dial=%v", codeOfMsg(r), ownerDies, dialFor)
 	}
-	if ownerDies {
-		w.Sleep(35 * time.Second)
-		for _, r := range w.Gen.Resources() {
-			if r.Kind == "conn" && r.Open() {
-				rec.Violate("ledger-open-after-death", "conn", "the peer connection dialled for a Connect (%s) is still open 60 s after its allocation was deleted during the dial", r.Addr)
-			}
+	// nobody binds the connection: whatever the Connect was answered, the connection the server
+	// dialled is closed again - with its allocation, or when nobody has claimed it for 30 s
+	w.Sleep(35 * time.Second)
+	for _, r := range w.Gen.Resources() {
+		if r.Kind == "conn" && r.Open() {
+			rec.Violate("ledger-open-after-death", "conn", "the peer connection dialled for a Connect (%s, dial took %v) is still open 40 s after the dial ended although nobody bound it (allocation deleted during the dial: %v)", r.Addr, dialFor, ownerDies)
 		}
 	}
 	m.Audit(nil)
